@@ -337,7 +337,7 @@ func TestVerif_C03_Envelopes(t *testing.T) {
 // subscribers or the state, the honest sentinel that follows does.
 func TestVerif_C03_Store(t *testing.T) {
 	acct := vacct.Get("C03")
-	vacct.RapidCheck(t, vacct.N(16, 1200), func(rt *rapid.T) {
+	vacct.RapidCheck(t, vacct.N(24, 1200), func(rt *rapid.T) {
 		kind := rapid.SampledFrom([]string{"account", "multimember"}).Draw(rt, "kind")
 		w := vNewReplica(t, "W", nil)
 		defer w.close()
@@ -415,7 +415,7 @@ func TestVerif_C03_Store(t *testing.T) {
 		// the forged entry is either appended on top of the victim's log, or written by a holder of the group secret on
 		// a replica that has merged nothing of the victim's history (a concurrent branch with low Lamport times) and
 		// then replicated to the victim
-		arrival := rapid.SampledFrom([]string{"appended", "concurrent-branch"}).Draw(rt, "arrival")
+		arrival := rapid.SampledFrom([]string{"appended", "concurrent-branch", "covered-by-a-genuine-entry"}).Draw(rt, "arrival")
 		var forgedID []byte
 		if arrival == "appended" {
 			e, err := m.AddOperation(vCtx, operation.NewOperation(nil, "ADD", env), nil)
@@ -436,14 +436,24 @@ func TestVerif_C03_Store(t *testing.T) {
 				rt.Fatalf("harness: the forger's branch is not concurrent (clock %d)", e.GetClock().GetTime())
 			}
 			n0 := m.OpLog().Len()
-			if err := vDeliverMeta(gc, fgc, e); err != nil {
+			head, extra := e, 0
+			if arrival == "covered-by-a-genuine-entry" {
+				// the forger puts a genuine entry of its own on top: the victim fetches both in one batch, the forged entry is
+				// not a head of it
+				cop, err := fgc.MetadataStore().SendAppMetadata(vCtx, []byte("cover"))
+				if err != nil {
+					rt.Fatalf("harness: %v", err)
+				}
+				head, extra = cop.GetEntry(), 1
+			}
+			if err := vDeliverMeta(gc, fgc, head); err != nil {
 				rt.Fatalf("harness: %v", err)
 			}
-			if m.OpLog().Len() != n0+1 {
+			if m.OpLog().Len() != n0+1+extra {
 				rt.Fatalf("harness: the victim did not merge the forger's branch (%d -> %d entries)", n0, m.OpLog().Len())
 			}
 			forgedID = e.GetHash().Bytes()
-			if mid := vDumpGroupState(gc); mid != before {
+			if mid := vDumpGroupState(gc); mid != before && extra == 0 {
 				acct.Violation("store/forged-event-applied/concurrent-branch", "TestVerif_C03_Store", map[string]any{"group": kind, "forgery": pick.label, "msg": c04Diff(before, mid)})
 				rt.Fatalf("C03 forged-event-applied/concurrent-branch: state changed by a forged entry (%s) replicated from a branch concurrent with the victim's history:\n%s", pick.label, c04Diff(before, mid))
 			}
